@@ -29,8 +29,8 @@ type Case struct {
 func TestMain(m *testing.M) {
 	h.Setup("C05",
 		"rewrite-shaped ASTs (loop followed by X with disjoint/overlapping/nullable X, lazy loops, alternations with shared literal/set prefixes, atomic alternations with >=3 literal branches and empty branches, nested atomics, loops ending lookarounds / conditional tests / group loops, leading unbounded loops, captures around all of these) and corpus patterns x options (incl. IgnoreCase, Multiline, Singleline, RightToLeft) x pattern-directed near-match inputs x every start offset; one evaluation = one (pattern,input,offset) where the naive scan of the normally compiled program, the naive scan of the program compiled with the rewrites gated off, and the public FindRunesMatchStartingAt are compared; non-trivial = the two compiled programs differ (a rewrite fired) and the un-rewritten program matches the input at this offset; distinct = hash of (pattern, options, input, offset)",
-		map[string]float64{"programs-differ/patterns": 0.5, "rw:atomic-loop/patterns": 0.05, "rw:atomic-group/patterns": 0.05, "rw:bumpalong/patterns": 0.05,
-			"rw:alternation-restructured/patterns": 0.03, "match": 0.18},
+		map[string]float64{"programs-differ/patterns": 0.35, "rw:atomic-loop/patterns": 0.05, "rw:atomic-group/patterns": 0.05, "rw:bumpalong/patterns": 0.05,
+			"rw:alternation-restructured/patterns": 0.03, "match": 0.12},
 		"the rewrite gates (build tag verif) switch off auto-atomic loops, ending-backtracking elimination, bump-along insertion, atomic-alternation trimming/reordering and alternation prefix extraction; everything else in the reducer stays on in both variants",
 		"both variants are run through the naive-scan hook so that acceleration cannot mask or cause a difference")
 	h.Ceiling("compile-error", 0.25)
